@@ -7,9 +7,9 @@ with that property over every job listed for it (jobs are cached, so the pool is
 import itertools
 
 
-def one(N, copyable=True, nothrow=True, maxlen=4, maxcnt=2, kinds=(0, 1, 3, 4, 7), maxcap=16, allocids=(0,), **kw):
+def one(N, copyable=True, nothrow=True, maxlen=4, maxcnt=2, kinds=(0, 1, 3, 4, 7, 8), maxcap=16, allocids=(0,), **kw):
     if not copyable:
-        kinds = (5, 7)     # move-only elements: ranges are consumed through move_iterators or built from construct-only sources
+        kinds = (5, 7, 8)  # move-only elements: ranges are consumed through move_iterators or built from construct-only sources
     d = dict(NA=N, NB=N, Profile='one', MaxLen=maxlen, MaxCnt=maxcnt, MaxCap=maxcap, Copyable=copyable,
              NothrowMove=nothrow, Kinds=list(kinds), AllocIds=list(allocids))
     d.update(kw)
@@ -23,7 +23,7 @@ def two(NA, NB, maxlen=3, maxcap=8, allocids=(1, 2), copyable=True, **traits):
     return d
 
 
-def mx(N, maxsize, maxcnt=3, kinds=(0, 1, 4, 7)):
+def mx(N, maxsize, maxcnt=3, kinds=(0, 1, 4, 7, 8)):
     return dict(NA=N, NB=N, Profile='max', MaxLen=maxsize + 2, MaxCnt=maxcnt, MaxCap=maxsize + 2, MaxSize=maxsize,
                 Kinds=list(kinds), AllocIds=[0])
 
@@ -35,7 +35,7 @@ def order(maxlen, alphabet=(1, 2, 3), flt=False):
     return d
 
 
-def wide(N, maxsize, kinds=(0, 1, 4, 7)):
+def wide(N, maxsize, kinds=(0, 1, 4, 7, 8)):
     return dict(NA=N, NB=N, Profile='wide', MaxLen=400, MaxCnt=3, MaxCap=100000, MaxSize=maxsize, Kinds=list(kinds), AllocIds=[0])
 
 
